@@ -82,9 +82,13 @@ Definition poll_of_wr (r : awr_res) : option (poll (io Z)) :=
 Definition poll_of_fl (r : afl_res) : option (poll (io unit)) :=
   match r with AFOk => Some (PReady (Ok tt)) | AFErr k => Some (PReady (Err k)) | AFPending => Some PPending | AFPanic => None end.
 Definition opt_or_panic {S A} (o : option A) : M S A := match o with Some a => ret a | None => panic end.
-Definition achain_poll_write (data : list Z) : MA (poll (io Z)) := r <- awr_call (fun s => pwr W2 s data) ;; opt_or_panic (poll_of_wr r).
-Definition achain_poll_flush : MA (poll (io unit)) := r <- awr_call (pfl W2) ;; opt_or_panic (poll_of_fl r).
-Definition achain_poll_shutdown : MA (poll (io unit)) := r <- awr_call (psh W2) ;; opt_or_panic (poll_of_fl r).
+(* Pin::new(&mut self.read_writer).poll_write(cx, buf) / poll_flush(cx) / poll_shutdown(cx) *)
+Definition acall_rw_write (data : list Z) : MA (poll (io Z)) := r <- awr_call (fun s => pwr W2 s data) ;; opt_or_panic (poll_of_wr r).
+Definition acall_rw_flush : MA (poll (io unit)) := r <- awr_call (pfl W2) ;; opt_or_panic (poll_of_fl r).
+Definition acall_rw_shutdown : MA (poll (io unit)) := r <- awr_call (psh W2) ;; opt_or_panic (poll_of_fl r).
+Definition achain_poll_write (data : list Z) : MA (poll (io Z)) := acall_rw_write data.
+Definition achain_poll_flush : MA (poll (io unit)) := acall_rw_flush.
+Definition achain_poll_shutdown : MA (poll (io unit)) := acall_rw_shutdown.
 End ACHAIN.
 
 Section ATAKE.
@@ -133,7 +137,10 @@ Definition atake_poll_read (buf : rb) : MT (poll (io unit) * rb) :=
   end.
 Definition atwr_call {A} (f : RWS -> A * RWS) : MT A := fun w =>
   let '(a, r') := f (at_rw w) in Val a {| at_rem := at_rem w; at_rw := r' |}.
-Definition atake_poll_write (data : list Z) : MT (poll (io Z)) := r <- atwr_call (fun s => pwr W2 s data) ;; opt_or_panic (poll_of_wr r).
-Definition atake_poll_flush : MT (poll (io unit)) := r <- atwr_call (pfl W2) ;; opt_or_panic (poll_of_fl r).
-Definition atake_poll_shutdown : MT (poll (io unit)) := r <- atwr_call (psh W2) ;; opt_or_panic (poll_of_fl r).
+Definition atcall_rw_write (data : list Z) : MT (poll (io Z)) := r <- atwr_call (fun s => pwr W2 s data) ;; opt_or_panic (poll_of_wr r).
+Definition atcall_rw_flush : MT (poll (io unit)) := r <- atwr_call (pfl W2) ;; opt_or_panic (poll_of_fl r).
+Definition atcall_rw_shutdown : MT (poll (io unit)) := r <- atwr_call (psh W2) ;; opt_or_panic (poll_of_fl r).
+Definition atake_poll_write (data : list Z) : MT (poll (io Z)) := atcall_rw_write data.
+Definition atake_poll_flush : MT (poll (io unit)) := atcall_rw_flush.
+Definition atake_poll_shutdown : MT (poll (io unit)) := atcall_rw_shutdown.
 End ATAKE.
